@@ -55,5 +55,5 @@ Proof. apply found_reaches. vm_cast_no_check (eq_refl true). Qed.
 
 (* the full deadline-change statement fails on the current source (consequence of F10-F12) *)
 Lemma deadline_full_counterexamples :
-  forall c, reaches (sys_1 skel c false) (fun st => negb (inv_deadline_seen (sys_1 skel c false) st)).
-Proof. intros []; apply found_reaches; vm_cast_no_check (eq_refl true). Qed.
+  reaches (sys_1 skel Accepter false) (fun st => negb (inv_deadline_seen (sys_1 skel Accepter false) st)).
+Proof. apply found_reaches; vm_cast_no_check (eq_refl true). Qed.
